@@ -47,6 +47,8 @@ func runC09(c *Ctx) {
 	c09BufferWriters(c)
 	c.Rule("C09.O14", "E4,E5", "status and trailers are the handler's: WriteHeader records the status code without asking whether net/http has a text for it; the declared trailer names that eoncodeHead sets aside are canonicalised elements of the comma-separated Trailer field; flush reads the trailer values from the header when it emits them (a trailer is set after the body)", 3)
 	c09StatusAndTrailers(c)
+	c.Rule("C09.O15", "E4", "body bytes go out only where a message body is allowed (not for a HEAD request, not with a 1xx / 204 / 304 status): Write's framing and buffering, the raw path of ReadFrom and the terminating chunk of the final flush are dominated by the positive edge of one predicate over the request method and the status code", 3)
+	c09BodyAllowed(c)
 	c.Rule("C09.O12", "E4,E6", "WriteHeader keeps a Content-Length header only when it parsed without error to a value >= 0: every path from the parse that does not delete the field carries both outcomes", 1)
 	c09KeepsValidLength(c)
 	c.Rule("C09.O7", "E2-ext", "a buffer from Malloc(n), n != 0, is truncated or filled before it is the destination of Append/AppendString", 20)
@@ -1186,4 +1188,55 @@ func isTrailerValue(c *Ctx, v ssa.Value, depth int) bool {
 		return len(x.Edges) > 0
 	}
 	return false
+}
+
+// c09BodyAllowed: O15.
+func c09BodyAllowed(c *Ctx) {
+	allowedFact := func(fi *ir.FnInfo, at ssa.Instruction) bool {
+		return fi.HasFact(at, func(ft ir.Fact) bool {
+			cnd, truth := ir.StripNot(ft.Cond, ft.Truth)
+			call, ok := ir.Resolve(cnd).(*ssa.Call)
+			return ok && truth && c.P.CalleeName(&call.Call) == "(*nbhttp.Response).bodyAllowed"
+		})
+	}
+	// the predicate itself looks at the method and the status
+	if ba := c.Fn("C09.O15", "(*nbhttp.Response).bodyAllowed"); ba != nil {
+		method, status := false, false
+		for _, a := range c.P.FieldAccesses(ba, func(k string) bool { return k == "net/http.Request.Method" || k == "nbhttp.Response.statusCode" }) {
+			if a.Field == "net/http.Request.Method" {
+				method = true
+			} else {
+				status = true
+			}
+		}
+		c.Cond(method && status, "C09.O15", fnKey(c.P, ba, "predicate over method and status"), c.FnPos(ba), "reads Request.Method and Response.statusCode", "bodyAllowed does not look at both the request method and the status code")
+	}
+	if w := c.Fn("C09.O15", "(*nbhttp.Response).Write"); w != nil {
+		fi := c.P.Info(w)
+		bad := ""
+		n := 0
+		for _, cs := range c.P.Calls(w, func(name string, _ ir.CallSite) bool {
+			return name == "(*nbhttp.Response).writeChunk" || name == "mempool.Append" || name == "invoke:net.Conn.Write"
+		}) {
+			n++
+			if !allowedFact(fi, cs.In) {
+				bad = "Write emits or buffers body bytes at " + c.Pos(cs.In) + " without knowing that this response may carry a body: the answer to a HEAD request, or a 204 / 304 response, is followed by bytes the client takes for the start of the next response"
+			}
+		}
+		c.Cond(bad == "" && n > 0, "C09.O15", fnKey(c.P, w, "body only where allowed"), c.FnPos(w), fmt.Sprintf("%d emission site(s) behind bodyAllowed()", n), bad)
+	}
+	if fl := c.Fn("C09.O15", "(*nbhttp.Response).flush"); fl != nil {
+		fi := c.P.Info(fl)
+		bad := ""
+		n := 0
+		for _, cs := range c.P.CallsNamed(fl, "mempool.AppendString") {
+			if s, ok := constString(cs.Common.Args[1]); ok && (s == "0\r\n\r\n" || s == "0\r\n") {
+				n++
+				if !allowedFact(fi, cs.In) {
+					bad = "the terminating chunk is appended at " + c.Pos(cs.In) + " whether or not the response may carry a body: a chunked answer to HEAD ends with '0 CRLF CRLF', which the client reads as the start of the next response"
+				}
+			}
+		}
+		c.Cond(bad == "" && n > 0, "C09.O15", fnKey(c.P, fl, "terminator only where a body is allowed"), c.FnPos(fl), fmt.Sprintf("%d terminator site(s) behind bodyAllowed()", n), bad)
+	}
 }
